@@ -310,6 +310,31 @@ class FnShape:
             raise AnchorLost(f"lost anchor: `{anchor}` occurrence {nth} of {len(hits)}")
         return hits[nth - 1]
 
+    def stmt_start(self, k):
+        """index of the first token of the statement that contains token k (scan back to ';', '{' or '}' at the same depth)"""
+        toks = self.toks
+        depth = 0
+        m = k - 1
+        first = k
+        while m > (self.body_open if self.body_open is not None else -1):
+            tt = toks[m]
+            if tt.kind == "punct":
+                if tt.text in CLOSE:
+                    if tt.text == "}" and depth == 0:
+                        # a block statement ended here — unless it is the `{..}` of a struct literal / closure inside our statement
+                        return first
+                    depth += 1
+                elif tt.text in OPEN:
+                    if depth == 0:
+                        return first
+                    depth -= 1
+                elif tt.text == ";" and depth == 0:
+                    return first
+            if tt.kind not in ("ws", "comment"):
+                first = m if depth == 0 else first
+            m -= 1
+        return first
+
     def stmt_end(self, k):
         """offset just after the ';' (or block '}' ) that ends the statement containing token k."""
         toks = self.toks
@@ -425,7 +450,7 @@ def weave_fn(text, directives, canary=False, findings=False):
             nth = int(m.group(1)) if m.group(1) else None
             k0, k1 = sh.find_anchor(m.group(2), nth)
             if d.kind == "before":
-                add(toks[k0].start, d.body + "\n", d)
+                add(toks[sh.stmt_start(k0)].start, d.body + "\n", d)
             elif d.kind == "after":
                 add(sh.stmt_end(k1), "\n" + d.body, d)
             else:
@@ -451,6 +476,20 @@ def weave_fn(text, directives, canary=False, findings=False):
                     e += 1
                 add(toks[b].start, "{\n" + d.body + "\n", d)
                 add(toks[_prev_code(toks, e)].end, " }", d, order=-1)
+        elif d.kind == "in":
+            m = re.match(r"\s*(?:(\d+)\s+)?`(.*)`\s*$", d.arg, re.S)
+            if not m:
+                raise Unsupported(f"bad #in syntax: {d.arg}")
+            nth = int(m.group(1)) if m.group(1) else None
+            k0, k1 = sh.find_anchor(m.group(2), nth)
+            b = k1 + 1
+            while b < len(toks) and not (toks[b].kind == "punct" and toks[b].text == "{"):
+                if toks[b].kind == "punct" and toks[b].text in "([":
+                    b = match_close(toks, b)
+                b += 1
+            if b >= len(toks):
+                raise AnchorLost(f"lost anchor: no block after `{m.group(2)}`")
+            add(toks[b].end, "\n" + d.body + "\n", d)
         elif d.kind == "body-start":
             add(toks[sh.body_open].end, "\n" + d.body + "\n", d, order=2)
         elif d.kind == "body-end":
